@@ -300,6 +300,7 @@ class State:
         self.flags = {}                 # name -> Bool or None (undefined)
         self.regions = {}               # region key -> {offset -> (word, byte index)}
         self.owned = set()              # regions whose map is private to this state (copy-on-write)
+        self.dyn_bases = []             # [(region name, base expr, upper offset limit)] : stack bases created by alloca/VLA
         self.in_atomic = None           # set while a locked read-modify-write instruction accesses memory
         self.base_arr = None            # array giving unwritten bytes of symbol regions (M0 until an external call)
         self.spilled_regions = frozenset()
@@ -331,6 +332,7 @@ class State:
         self.owned = set()
         s.spilled_regions = self.spilled_regions
         s.base_arr = self.base_arr
+        s.dyn_bases = list(self.dyn_bases)
         s.heap = self.heap
         s.hlog = list(self.hlog)
         s.pc = list(self.pc)
@@ -390,6 +392,14 @@ class State:
                     v = a.as_signed_long()
                     if -(1 << 24) < v < (1 << 24):
                         return k, v
+        # dynamic stack bases (rsp after alloca / a VLA): B + const with const below the relocated temporary area
+        for name, B, limit in reversed(self.dyn_bases):
+            d = simp(addr - B)
+            if z3.is_bv_value(d):
+                v = d.as_signed_long()
+                if -(1 << 20) < v < limit:
+                    return name, v
+                return None, None
         return None, None
 
     def _stack_off(self, addr):
@@ -417,12 +427,16 @@ class State:
         return out
 
     def _base_addr(self, key):
-        return self.m.RSP0 if key == "RSP" else self.m.syms[key[1:]]
+        if key == "RSP":
+            return self.m.RSP0
+        if key.startswith("DYN"):
+            return [B for n, B, l in self.dyn_bases if n == key][0]
+        return self.m.syms[key[1:]]
 
     def _rbyte(self, key, reg, off):
         ent = reg.get(off)
         if ent is None:
-            arr = self.m.M0 if key == "RSP" or self.base_arr is None else self.base_arr
+            arr = self.m.M0 if key == "RSP" or key.startswith("DYN") or self.base_arr is None else self.base_arr
             return z3.Select(arr, simp(self._base_addr(key) + bv(off)))
         w, i = ent
         if w.size() == 8:
@@ -1080,6 +1094,15 @@ class Machine:
         self._imm_ok(ins, size)
         src, dst = ins.ops
         s.write(dst, self._sub_flags(s, s.read(dst, size), s.read(src, size), size), size)
+        if dst.kind == "reg" and dst.reg == "rsp" and size == 64 and src.kind == "reg":
+            # the stack pointer moved by a run-time amount (alloca / VLA). The new stack top is a fresh region:
+            # nothing else lives below it, and the temporaries relocated to [new rsp, new rsp + rcx) stay below
+            # every object of the static frame because the amount is non-negative (size < 2^31 is a stated bound).
+            k, o = s._decompose(simp(s.regs["rsp"]))
+            if k is None and not s.spilled:
+                tmp = simp(s.regs["rcx"])
+                limit = tmp.as_long() if z3.is_bv_value(tmp) and tmp.as_long() < (1 << 16) else 0
+                s.dyn_bases.append(("DYN%d" % len(s.dyn_bases), simp(s.regs["rsp"]), limit))
 
     def g_cmp(self, s, ins, size):
         self._imm_ok(ins, size)
@@ -1321,7 +1344,7 @@ class Machine:
             s.heap = newheap
             # extern objects may be written by the callee: forget what we know about them
             for k in list(s.regions):
-                if k != "RSP":
+                if k != "RSP" and not k.startswith("DYN"):
                     s.regions[k] = {}
             s.base_arr = newheap
         ev.ret_rax = s.regs["rax"]
